@@ -10,6 +10,8 @@ CLAIMED = {
          'mru+purge excluded (F27); clear / archive toggles / external deletes are the cases the property itself allows', '5 C02'),
  'C05': ('Klepto.C05: one-call bound for every algorithm and path, history-level bound by induction over the whole op alphabet, maxsize 0 / None / purge; ' + W,
          'mru IndexError (F2) and mru+purge stale queue (F27) are excluded by hypothesis, pinned by Lean counter-examples and listed as known findings', '5 C05'),
+ 'C06': ('Klepto.C06: in every well-formed (= reachable) state the purge block removes exactly the policy victim(s): LRU = head of the recency order (log + refcount + compaction refine dkl), MRU = last queue entry, LFU = the min(n, tracked) least-used with counts <= every kept entry, RR = exactly one resident entry; hit and non-overflow frames; ' + W + ' + an independent history-level policy specification as monitor',
+         'untracked (bulk-loaded) entries are never chosen (documented); mru+purge stale entry (F27) listed', '5 C06'),
  'C07': ('Klepto.C07: leaving memory implies archived with the same value (all evictions incl. multi-victim lfu and purge), archive entries stable, results retained; ' + W,
          'no_cache with pre-populated un-archived entries (F26) excluded by hypothesis and listed', '5 C07'),
  'C15': ('Klepto.C15: counters move by exactly the classified event on every path; ghost-account theorem over all histories; completed iff counted; info/clear; ' + W,
